@@ -14,7 +14,7 @@ from typing import Dict, List, Optional, Tuple
 import common
 import spec as S
 
-GEN_VERSION = "9"
+GEN_VERSION = "10"
 
 STRUM_DERIVES = ["EnumString", "Display", "AsRefStr", "IntoStaticStr", "VariantNames", "EnumIter", "EnumCount", "FromRepr",
                  "VariantArray", "EnumDiscriminants", "EnumIs", "EnumTryAs", "EnumMessage", "EnumProperty", "EnumTable",
@@ -429,6 +429,27 @@ def family_unit_strings(rng: random.Random, count: int, start: int) -> List[E]:
     return out
 
 
+def family_overlap(start: int) -> List[E]:
+    """Family A3 (C16 only): field-less enums whose spellings overlap across variants. C01/C02/C12 exclude them
+    (their domain is non-overlapping spellings); C16 quantifies over every accepted enum."""
+    out = []
+    shapes = [
+        # (enum metas, [(variant, metas)])
+        ([], [("First", ['serialize = "foo"', "ascii_case_insensitive"]), ("Second", ['serialize = "Foo"']), ("Third", [])]),
+        ([], [("First", ['serialize = "ON"']), ("Second", ['serialize = "on"', "ascii_case_insensitive"]), ("Third", [])]),
+        ([], [("First", ['serialize = "x"', 'serialize = "X"', "ascii_case_insensitive"]), ("Second", [])]),
+        (["ascii_case_insensitive"], [("First", ['serialize = "mb"', "ascii_case_insensitive = false"]), ("Second", ['serialize = "MB"', "ascii_case_insensitive = false"]), ("Third", ['serialize = "Mb"'])]),
+        ([], [("First", ['serialize = "dup"']), ("Second", ['serialize = "dup"']), ("Third", ['to_string = "Dup"', "ascii_case_insensitive"])]),
+    ]
+    for i, (emetas, vs_) in enumerate(shapes):
+        eid = start + i
+        vs = [V(n, "unit", [], [m_] if m_ else []) for n, m_ in vs_]
+        e = E("Ovl%04d" % eid, "overlap", ["EnumString"], vs, attrs=[emetas] if emetas else [])
+        out.append(e)
+        out.append(E(e.name, "overlap_phf", ["EnumString"], [V(v.name, v.kind, [], [list(a) for a in v.attrs]) for v in vs], attrs=[emetas + ["use_phf"]], std_only=True, phf=True, twin_of=e.name))
+    return out
+
+
 def family_casing(rng: random.Random, start: int, idents: List[str], styles: List[Optional[str]], per_enum: int = 8) -> List[E]:
     """Family C: identifier dictionary x every accepted style string."""
     out = []
@@ -735,6 +756,7 @@ def generate(tier: str, seed: int) -> List[E]:
     es: List[E] = []
     es += family_strings(rng, 70 if tier == "quick" else 400, 1)
     es += family_unit_strings(rng, 24 if tier == "quick" else 120, 1)
+    es += family_overlap(1)
     es += family_casing(rng, 1, IDENT_DICT, STYLES)
     es += family_iter(rng, 1, tier == "thorough")
     es += family_messages(rng, 1, 24 if tier == "quick" else 96)
@@ -853,12 +875,29 @@ def build_workspace(root: str, es: List[E], configs: List[str], disabled: Dict[s
 
 
 class CompileFailure:
-    def __init__(self, crate: str, module: str, message: str, code: Optional[str], rendered: str):
+    def __init__(self, crate: str, module: str, message: str, code: Optional[str], rendered: str, derive: Optional[str] = None):
         self.crate = crate
         self.module = module
         self.message = message
         self.code = code
         self.rendered = rendered
+        self.derive = derive       # strum derive whose expansion contains the error, if any
+
+
+def diag_derive(d: dict) -> Optional[str]:
+    """Name of the derive macro in whose expansion the diagnostic's primary span lies."""
+    for sp in d.get("spans", []):
+        ex = sp.get("expansion")
+        guard = 0
+        while ex and guard < 12:
+            nm = ex.get("macro_decl_name") or ""
+            m = re.match(r"#\[derive\((?:.*::)?([A-Za-z0-9_]+)\)\]", nm)
+            if m:
+                return m.group(1)
+            ex = (ex.get("span") or {}).get("expansion")
+            guard += 1
+    m = re.search(r"originates in the derive macro `(?:.*::)?([A-Za-z0-9_]+)`", d.get("rendered") or "")
+    return m.group(1) if m else None
 
 
 _LAST: Dict[str, object] = {}
@@ -914,7 +953,7 @@ def extract(tier: str, seed: int, configs: Optional[List[str]] = None, need=None
                 if mod in disabled.get(crate, set()):
                     continue
                 disabled.setdefault(crate, set()).add(mod)
-                failures.append(CompileFailure(crate, mod, d.get("message", ""), (d.get("code") or {}).get("code") if d.get("code") else None, d.get("rendered", "")))
+                failures.append(CompileFailure(crate, mod, d.get("message", ""), (d.get("code") or {}).get("code") if d.get("code") else None, d.get("rendered", ""), diag_derive(d)))
                 new += 1
             if new == 0:
                 msgs = "\n".join((d.get("rendered") or d.get("message") or "")[:600] for d in errs[:5])
